@@ -1,6 +1,173 @@
-(* C19 — name mapping is total and safe, and JSON keys map back to their fields. *)
-From BP Require Import Base.Prelude Model.Casing Proofs.CasingP.
+(* C19 — Name mapping is total and safe, and JSON keys map back to their fields.
+   Only property-level statements; every proof is an [exact] of a lemma from Proofs/CasingP*.v
+   (or a vm_compute on a concrete witness), followed by Print Assumptions.
 
+   Strings are the UTF-8 bytes of the Python str.  Unless a hypothesis says otherwise the
+   statements hold for EVERY byte string, not only for proto identifiers. *)
+From BP Require Import Base.Prelude Model.Casing.
+From BP Require Import Proofs.CasingP Proofs.CasingP2 Proofs.CasingP3 Proofs.CasingP4.
+From Coq Require Import String.
+Local Notation b := list_byte_of_string.
+
+(* T1: the regex source strings and the patterns handed to re.sub are the ones the scanner models *)
 Theorem C19_regexes_as_modelled : regexes_as_modelled = true.
 Proof. exact regexes_ok. Qed.
 Print Assumptions C19_regexes_as_modelled.
+
+(* ---- identifier-ness and non-keyword-ness ---- *)
+(* field and method names: for every input string whatsoever *)
+Theorem C19_field_ident : forall s,
+  is_identifier (pythonize_field_name s) = true /\ is_keyword (pythonize_field_name s) = false.
+Proof. exact safe_snake_ok. Qed.
+Print Assumptions C19_field_ident.
+
+Theorem C19_method_ident : forall s,
+  is_identifier (pythonize_method_name s) = true /\ is_keyword (pythonize_method_name s) = false.
+Proof. exact safe_snake_ok. Qed.
+Print Assumptions C19_method_ident.
+
+(* sanitize_name on any string over [A-Za-z0-9_] (what enum members go through) *)
+Theorem C19_sanitize_ident : forall x, ident_chars x = true ->
+  is_identifier (sanitize_name x) = true /\ is_keyword (sanitize_name x) = false.
+Proof. exact sanitize_ok. Qed.
+Print Assumptions C19_sanitize_ident.
+
+(* enum member names, whatever the enum is called *)
+Theorem C19_enum_member_ident : forall name enum_name, ident_chars name = true ->
+  is_identifier (pythonize_enum_member_name name enum_name) = true /\
+  is_keyword (pythonize_enum_member_name name enum_name) = false.
+Proof. exact enum_member_ok. Qed.
+Print Assumptions C19_enum_member_ident.
+
+(* class names: under the exact side condition class_name_ok (first word starts with a letter, and the
+   name is not none/true/false in any capitalisation) *)
+Theorem C19_class_ident : forall s, class_name_ok s = true ->
+  is_identifier (pythonize_class_name s) = true /\ is_keyword (pythonize_class_name s) = false.
+Proof. exact class_name_ident. Qed.
+Print Assumptions C19_class_ident.
+
+(* ... and without it the statement is false on the pinned code (K11): _ -> "", _1 -> "1", none -> None *)
+Theorem C19_class_ident_refuted :
+  Forall (fun s => proto_ident s = true /\
+                   (is_identifier (pythonize_class_name s) = false \/ is_keyword (pythonize_class_name s) = true))
+         [b "_"; b "_1"; b "none"].
+Proof. repeat apply Forall_cons; try apply Forall_nil; (split; [reflexivity|]); vm_compute; auto. Qed.
+Print Assumptions C19_class_ident_refuted.
+
+(* ---- idempotence ---- *)
+Theorem C19_snake_idem : forall s, safe_snake_case (safe_snake_case s) = safe_snake_case s.
+Proof. exact safe_snake_idem. Qed.
+Print Assumptions C19_snake_idem.
+
+Theorem C19_snake_case_idem : forall s, snake_case (snake_case s) = snake_case s.
+Proof. exact snake_snake. Qed.
+Print Assumptions C19_snake_case_idem.
+
+Theorem C19_pascal_idem : forall s, pascal_stable s = true ->
+  pythonize_class_name (pythonize_class_name s) = pythonize_class_name s.
+Proof. exact pascal_idem. Qed.
+Print Assumptions C19_pascal_idem.
+
+(* K10: a_b -> AB -> Ab *)
+Theorem C19_pascal_idem_refuted : exists s, proto_ident s = true /\ pascal_stable s = false /\
+  pythonize_class_name (pythonize_class_name s) <> pythonize_class_name s.
+Proof. exists (b "a_b"). vm_compute. repeat split; discriminate. Qed.
+Print Assumptions C19_pascal_idem_refuted.
+
+(* ---- keys map back: the casing functions alone (what the pinned from_dict relies on) ---- *)
+(* snake_case keys and the original proto name always map back; camelCase keys under key_safe *)
+Theorem C19_key_back : forall s, key_safe s = true ->
+  let F := safe_snake_case s in
+  safe_snake_case (camel_key F) = F /\ safe_snake_case (snake_key F) = F /\ safe_snake_case s = F.
+Proof. intros s K. split; [exact (camel_key_back s K)|split; [exact (snake_key_back s)|reflexivity]]. Qed.
+Print Assumptions C19_key_back.
+
+Theorem C19_snake_key_back : forall s,
+  safe_snake_case (snake_key (safe_snake_case s)) = safe_snake_case s.
+Proof. exact snake_key_back. Qed.
+Print Assumptions C19_snake_key_back.
+
+Theorem C19_key_back_pinned_lookup : forall fs s, In (safe_snake_case s) fs -> key_safe s = true ->
+  field_for_key_pinned fs (camel_key (safe_snake_case s)) = Some (safe_snake_case s).
+Proof. exact field_for_key_pinned_back. Qed.
+Print Assumptions C19_key_back_pinned_lookup.
+
+(* F9: without key_safe the camelCase key is lost by a lookup through safe_snake_case only *)
+Theorem C19_key_refuted :
+  Forall (fun s => proto_ident s = true /\ key_safe s = false /\
+                   let F := safe_snake_case s in
+                   safe_snake_case (camel_key F) <> F /\ field_for_key_pinned [F] (camel_key F) = None)
+         [b "address_line_1"; b "x_y_z"].
+Proof.
+  repeat apply Forall_cons; try apply Forall_nil; vm_compute;
+    (split; [reflexivity|split; [reflexivity|split; [discriminate|reflexivity]]]).
+Qed.
+Print Assumptions C19_key_refuted.
+
+(* ---- keys map back: from_dict with the table of camelCase keys (fixes/c19-from-dict-key-lookup.patch) ----
+   For ANY field names fs (hand-written classes included): a key addresses field f whenever f is the only
+   field whose to_dict key it is, and it is f's to_dict key or safe_snake_case sends it to f. *)
+Theorem C19_from_dict_key_back : forall fs k f, In f fs ->
+  (forall g, In g fs -> camel_key g = k -> g = f) ->
+  camel_key f = k \/ safe_snake_case k = f ->
+  field_for_key fs k = Some f.
+Proof. exact field_for_key_back. Qed.
+Print Assumptions C19_from_dict_key_back.
+
+(* camelCase keys: pairwise distinct to_dict keys are all that is needed (no key_safe) *)
+Theorem C19_from_dict_camel_back : forall fs f, In f fs ->
+  (forall g, In g fs -> camel_key g = camel_key f -> g = f) ->
+  field_for_key fs (camel_key f) = Some f.
+Proof. intros fs f I U. exact (field_for_key_back fs (camel_key f) f I U (or_introl eq_refl)). Qed.
+Print Assumptions C19_from_dict_camel_back.
+
+(* a message with one generated field: all three keys map back, for every proto name, no hypothesis *)
+Theorem C19_one_field_roundtrip : forall s,
+  let F := safe_snake_case s in
+  field_for_key [F] (camel_key F) = Some F /\ field_for_key [F] (snake_key F) = Some F /\ field_for_key [F] s = Some F.
+Proof.
+  intros s F. assert (forall k g, In g [F] -> camel_key g = k -> g = F) as U by (intros k g [<-|[]] _; reflexivity).
+  split; [|split].
+  - exact (field_for_key_back [F] _ F (or_introl eq_refl) (U _) (or_introl eq_refl)).
+  - exact (field_for_key_back [F] _ F (or_introl eq_refl) (U _) (or_intror (snake_key_back s))).
+  - exact (field_for_key_back [F] _ F (or_introl eq_refl) (U _) (or_intror eq_refl)).
+Qed.
+Print Assumptions C19_one_field_roundtrip.
+
+Theorem C19_from_dict_only_fields : forall fs k f, field_for_key fs k = Some f -> In f fs.
+Proof. exact field_for_key_in. Qed.
+Print Assumptions C19_from_dict_only_fields.
+
+(* ---- the side conditions are exact: checked for every string of length <= 5 over {a,b,A,B,0,1,_,.}
+   (partial: sufficiency is proved above for all strings; necessity only on this finite set, and by the
+   harness sweep against the real functions) ---- *)
+Theorem C19_side_conditions_exact_len5_partial : all_strings alphabet8 5 [] side_conditions_exact = true.
+Proof. exact side_conditions_exact_len5. Qed.
+Print Assumptions C19_side_conditions_exact_len5_partial.
+
+(* ---- non-vacuity ---- *)
+Example C19_ex_field : map (fun s => string_of_list_byte (pythonize_field_name (b s)))
+    ["HTTPStatus"; "address_line_1"; "from"; "_"; "_1"; "fooBAR"; "None"]%string
+  = ["http_status"; "address_line_1"; "from_"; "_"; "_1"; "foo_bar"; "none"]%string.
+Proof. vm_compute. reflexivity. Qed.
+Example C19_ex_key_safe : key_safe (b "ipv4_address") = true /\ camel_key (b "ipv4_address") = b "ipv4Address"
+  /\ key_safe (b "x_y1_z") = true /\ key_safe (b "x_y_zz") = true /\ key_safe (b "from") = true.
+Proof. vm_compute. repeat split. Qed.
+Example C19_ex_pascal_stable : pascal_stable (b "HTTPStatus") = true /\ pythonize_class_name (b "HTTPStatus") = b "HttpStatus"
+  /\ pascal_stable (b "address_line_1") = true /\ pascal_stable (b "a_bc") = true.
+Proof. vm_compute. repeat split. Qed.
+Example C19_ex_class_ok : class_name_ok (b "Foo.Bar") = true /\ pythonize_class_name (b "Foo.Bar") = b "FooBar"
+  /\ class_name_ok (b "nonempty") = true.
+Proof. vm_compute. repeat split. Qed.
+Example C19_ex_enum : pythonize_enum_member_name (b "COLOR_RED") (b "Color") = b "RED"
+  /\ pythonize_enum_member_name (b "FOO_NONE") (b "Foo") = b "NONE"
+  /\ pythonize_enum_member_name (b "FOO_None") (b "Foo") = b "None_"
+  /\ pythonize_enum_member_name (b "FOO_1") (b "Foo") = b "_1" /\ ident_chars (b "FOO_1") = true.
+Proof. vm_compute. repeat split. Qed.
+(* the fixed lookup on the F9 witnesses, and with two fields whose keys differ only in case *)
+Example C19_ex_from_dict : field_for_key [b "address_line_1"] (b "addressLine1") = Some (b "address_line_1")
+  /\ field_for_key [b "x_yz"; b "x_y_z"] (b "xYZ") = Some (b "x_y_z")
+  /\ field_for_key [b "x_yz"; b "x_y_z"] (b "xYz") = Some (b "x_yz")
+  /\ field_for_key [b "x_yz"; b "x_y_z"] (b "x_y_z") = Some (b "x_y_z")
+  /\ field_for_key [b "from_"] (b "from") = Some (b "from_").
+Proof. vm_compute. repeat split. Qed.
